@@ -1,22 +1,36 @@
 (* C05 for the text TAPE deserializer walk (TextDeTape.de / seq_all / seq_tup / twalk over the
-   immutable token list, with the DOM reader operations TextDeTape.v defines itself):
+   immutable token list, with the DOM reader operations TextDeTape.v defines itself: tget, next_idx,
+   next_idx_values, values_len, fields_next, remainder, read_object, find_mixed, read_array).
 
-     on every tape satisfying TapeWf.tape_wf (what TextTape.parse guarantees, C17), for every shape
-     (ShProp included), every decoder returning real bytes, every float parser / casts and EVERY fuel,
-     the walk never returns Panic (SITE_TOK 9100 = `tokens[i]` out of range, 9001/9002 of finish) or OOB,
-     and does not return OutOfFuel when
-            2 * (tokens in the range) + shape_size sh + sdepth sh + 4 <= fuel
-     where sdepth = nesting depth of ShSeq / ShTup nodes.
+   On every tape satisfying TapeWf.tape_wf (what TextTape.parse guarantees: C17, parse_tape_wf), for every
+   shape (ShProp included), every decoder returning real bytes, every float parser / casts and EVERY fuel,
+   the walk never returns Panic (SITE_TOK 9100 = `tokens[i]` out of range, 9001 / 9002 of finish) or OOB,
+   and does not return OutOfFuel when
+            2 * (tokens of the range) + shape_size sh + seq_extra t sh + 4 <= fuel,
+   seq_extra t sh = the nesting depth of ShSeq / ShTup in sh if the tape contains a Header token, else 0.
+
+   Invariants on the handles (all derived from tape_wf):
+     KVal vi / KOpVal _ vi   vi starts a non-empty Dyck range inside the tape          (kbound)
+     KArr st en / TVSeq st en   [st, en) is a Dyck range inside the tape                (rng)
+     TVMap st en / twalk .. ti en   an object-body suffix `(key [op] value)* [Mixed items]`, a Dyck range, and
+                             the remainder FieldsIter::remainder computes at its end is a Dyck range: empty for
+                             the root and for Object tokens, the array's items for the degenerate (e, e) range
+                             read_object returns for an Array token                     (map_ok)
+   Measure: the number of tokens of the range (msz adds the remainder of an array read as an object).
 
    FINDING (about the MODEL's fuel, not the Rust code): TextDeTape.tape_fuel = 2 * length t + shape_size sh + 8
    is NOT always sufficient.  deserialize_seq on a Header value (`rgb { .. }`) yields a sequence whose
    first element is the header token itself (read_array returns (vi, next_idx (S vi))), so a shape
    ShSeq (ShSeq (.. )) deserialized at a header costs TWO levels of fuel (de + seq_all) per level of the
    shape without advancing in the tape.  Counterexample [tape_fuel_insufficient] below: the input
-   `a=rgb{{}}` with the shape ShMap (ShSeq^16 ShIgn) gives OutOfFuel with tape_fuel and Ok with fuel 200.
-   Hence [deser_tape_text_ok_partial] needs sdepth sh <= 4; [deser_tape_text_nopanic] is unconditional. *)
+   `a=rgb{{}}` with the shape ShMap (ShSeq^16 ShIgn) gives OutOfFuel with tape_fuel and Ok with fuel 200
+   (the Rust code has no fuel: its recursion is bounded by the static type).
+   Hence [deser_tape_text_ok_partial] needs seq_extra t sh <= 4 (no Header token in the tape, or Seq / Tuple
+   nesting depth at most 4); [deser_tape_text_nopanic] (never Panic / OOB) is unconditional; with a fuel of
+   2 * length t + 2 * shape_size sh + 4 the walk never runs out ([de_root_text_ok_2size]). *)
 From JV.proofs Require Import SwarLanes NoCrashWalk NoCrashTextDe DomProofs.
 From JV Require Dom TextTape.
+From JV.proofs Require TextTapeGrammarProofs.
 From JV Require Import Bytes Utf8 Scalar TextTok SerdeShape TextDeCommon TapeWf TextDeTape.
 From Coq Require Import List NArith ZArith Bool Lia Arith.
 Import ListNotations.
@@ -32,7 +46,8 @@ Fixpoint sdepth (sh : shape) : nat :=
   | _ => 0
   end.
 
-Definition mu (sh : shape) : nat := tsize sh + sdepth sh.
+(* b = "the tape contains a Header token": only then does deserialize_seq cost two levels per shape level *)
+Definition mu (b : bool) (sh : shape) : nat := tsize sh + (if b then sdepth sh else 0).
 
 Lemma sdepth_le_tsize : forall sh, sdepth sh <= tsize sh.
 Proof.
@@ -45,7 +60,7 @@ Proof.
   - specialize (IH sh). lia.
 Qed.
 
-Lemma mu_pos sh : 1 <= mu sh.
+Lemma mu_pos b sh : 1 <= mu b sh.
 Proof. unfold mu. pose proof (tsize_pos sh). lia. Qed.
 
 Lemma tup_depth_le ss s : In s ss -> sdepth s <= fold_right (fun s n => Nat.max (sdepth s) n) 0 ss.
@@ -53,10 +68,10 @@ Proof. induction ss as [|x ss IH]; cbn; [tauto|]. intros [->|H]; [lia|]. special
 Lemma struct_depth_le (fs : list field) f : In f fs -> sdepth (snd f) <= fold_right (fun f n => Nat.max (sdepth (snd f)) n) 0 fs.
 Proof. induction fs as [|x fs IH]; cbn; [tauto|]. intros [->|H]; [lia|]. specialize (IH H). lia. Qed.
 
-Lemma mu_tup ss s : In s ss -> mu s + 2 <= mu (ShTup ss).
+Lemma mu_tup b ss s : In s ss -> mu b s + (if b then 2 else 1) <= mu b (ShTup ss).
 Proof.
   intros H. unfold mu. cbn [TextDeCommon.shape_size sdepth].
-  pose proof (ttup_size_le ss s H). pose proof (tup_depth_le ss s H). lia.
+  pose proof (ttup_size_le ss s H). pose proof (tup_depth_le ss s H). destruct b; lia.
 Qed.
 
 (* the shapes a visit_map loop deserializes values into *)
@@ -68,15 +83,15 @@ Definition wchild (m : wmode) (sh : shape) : Prop :=
   | WProp s => sh = s \/ sh = ShIgn
   end.
 
-Lemma mu_child sh m c : wmode_of sh = Some m -> wchild m c -> mu c <= mu sh.
+Lemma mu_child b sh m c : wmode_of sh = Some m -> wchild m c -> mu b c <= mu b sh.
 Proof.
   destruct sh; cbn [wmode_of]; intros E; inversion E; subst; cbn [wchild].
-  - intros ->. unfold mu. cbn. lia.
+  - intros ->. unfold mu. cbn. destruct b; lia.
   - intros [->|(f & Hin & ->)].
-    + unfold mu. cbn. lia.
+    + unfold mu. cbn. destruct b; lia.
     + unfold mu, f_shape. cbn [TextDeCommon.shape_size sdepth].
-      pose proof (tstruct_size_le fields f Hin). pose proof (struct_depth_le fields f Hin). lia.
-  - intros [->| ->]; unfold mu; cbn; pose proof (tsize_pos sh); lia.
+      pose proof (tstruct_size_le fields f Hin). pose proof (struct_depth_le fields f Hin). destruct b; lia.
+  - intros [->| ->]; unfold mu; cbn; pose proof (tsize_pos sh); destruct b; lia.
   - intros ->. lia.
 Qed.
 
@@ -137,11 +152,6 @@ Section Tape.
 
   Lemma nth_skipn : forall (l : ttape) i k, nth_error l i = Some k -> skipn i l = k :: skipn (S i) l.
   Proof. exact tget_skipn. Qed.
-
-  Lemma skipn_head : forall (l : ttape) i, match skipn i l with [] => nth_error l i = None | k :: _ => nth_error l i = Some k end.
-  Proof.
-    induction l as [|x l IH]; intros [|i]; cbn; auto. apply IH.
-  Qed.
 
   (* ---------- next_idx ---------- *)
   Lemma next_idx_unfold' idx k : nth_error t idx = Some k ->
@@ -462,6 +472,10 @@ Section Tape.
 
     Definition is_hdr (vi : nat) : bool := match nth_error t vi with Some (THeader _) => true | _ => false end.
 
+    (* hb = false is allowed only for tapes without Header tokens *)
+    Variable hb : bool.
+    Hypothesis Hhb : forall vi, is_hdr vi = true -> hb = true.
+
     Lemma pstr_wf s : tprim_wf (pstr (decode s)).
     Proof. unfold pstr. cbn. apply Hdec. Qed.
 
@@ -559,10 +573,10 @@ Section Tape.
     Definition is_seq_hint (h : thint) : bool := match h with THSeq => true | _ => false end.
 
     Lemma tv_seq_ok vi n : (exists en, vi < en /\ rng vi en /\ en - vi <= n) ->
-      strict (tvb true n) (tv_seq_at decode t vi).
+      strict (tvb hb n) (tv_seq_at decode t vi).
     Proof.
       intros (en & A & B & C). eapply strict_mono; [apply (tv_seq_at_ok _ en n A B C)|].
-      intros v Hv. apply (tvb_mono (is_hdr vi) true n n v Hv); auto.
+      intros v Hv. apply (tvb_mono (is_hdr vi) hb n n v Hv); [lia|apply Hhb].
     Qed.
 
     Lemma tv_enum_ok vi n : (exists en, vi < en /\ rng vi en /\ en - vi <= n) ->
@@ -587,7 +601,7 @@ Section Tape.
     Qed.
 
     Lemma tape_visit_ok h k n : kbound k n ->
-      strict (tvb (is_seq_hint h) n) (tape_visit decode parse_f64 t h k).
+      strict (tvb (is_seq_hint h && hb) n) (tape_visit decode parse_f64 t h k).
     Proof.
       intros Hk.
       assert (Hany : forall b, strict (tvb b n) (tv_any decode t k)).
@@ -607,7 +621,7 @@ Section Tape.
       all: try (destruct prop; [|exact (Hmap _)]); try (exact (Hmap _)); try exact Hk.
       all: try (apply tv_seq_ok; exact Hk).
       all: try (apply tv_enum_ok; exact Hk).
-      all: try (cbn [is_seq_hint strict tvb]; cbn [kbound] in Hk; destruct Hk; split; auto; lia).
+      all: try (cbn [is_seq_hint strict tvb andb]; cbn [kbound] in Hk; destruct Hk; split; auto; destruct hb; lia).
     Qed.
 
     (* ================================================================ the walk *)
@@ -617,13 +631,13 @@ Section Tape.
     Notation twalk := (TextDeTape.twalk decode parse_f64 fo t).
 
     Definition PA (f : nat) : Prop := forall sh k n, kbound k n ->
-      gd2 true (2 * n + mu sh + 1 <= f) (fun _ => True) (de f sh k).
+      gd2 true (2 * n + mu hb sh + 1 <= f) (fun _ => True) (de f sh k).
     Definition PB (f : nat) : Prop := forall s ti en, rng ti en ->
-      gd2 true (2 * (en - ti) + mu s + 2 <= f) (fun _ => True) (seq_all f s ti en).
-    Definition PC (f : nat) : Prop := forall ss ti en SZ, (forall s, In s ss -> mu s <= SZ) -> rng ti en ->
+      gd2 true (2 * (en - ti) + mu hb s + 2 <= f) (fun _ => True) (seq_all f s ti en).
+    Definition PC (f : nat) : Prop := forall ss ti en SZ, (forall s, In s ss -> mu hb s <= SZ) -> rng ti en ->
       gd2 true (2 * (en - ti) + SZ + 2 <= f) (fun _ => True) (seq_tup f ss ti en).
     Definition PD (f : nat) : Prop := forall m a ti en M, acc_ok m a -> map_ok ti en ->
-      (forall c, wchild m c -> mu c <= M) ->
+      (forall c, wchild m c -> mu hb c <= M) ->
       gd2 true (2 * msz ti en + M + 4 <= f) (acc_ok m) (twalk f m a ti en).
 
     Lemma step_B f : PA f -> PB f -> PB (S f).
@@ -677,17 +691,17 @@ Section Tape.
       destruct v as [p|k'|k'|st en|st en|op vi|vi rest].
       - eapply gd2_mono; [apply tvisit_prim_ok'; exact Hv|auto|auto].
       - destruct sh; try exact I. unfold omap.
-        eapply gd2_bind; [eapply gd2_mono; [apply (IA sh k' n Hv)|unfold mu; cbn [tsize sdepth]; lia|intros x H; exact H]|].
+        eapply gd2_bind; [eapply gd2_mono; [apply (IA sh k' n Hv)|unfold mu; cbn [tsize sdepth]; destruct hb; lia|intros x H; exact H]|].
         intros; exact I.
       - exact I.
       - destruct sh; try exact I; cbn [thint_of is_seq_hint tvb] in Hv; destruct Hv as [R Hn]; unfold omap.
-        + eapply gd2_bind; [eapply gd2_mono; [apply (IB sh st en R)|unfold mu; cbn [tsize sdepth]; lia|intros x H; exact H]|].
+        + eapply gd2_bind; [eapply gd2_mono; [apply (IB sh st en R)|revert Hn; unfold mu; cbn [tsize sdepth andb]; destruct hb; lia|intros x H; exact H]|].
           intros; exact I.
         + eapply gd2_bind.
-          { eapply gd2_mono; [apply (IC ss st en (mu (ShTup ss) - 2))| |intros x H; exact H].
-            - intros s Hin. pose proof (mu_tup ss s Hin). lia.
+          { eapply gd2_mono; [apply (IC ss st en (mu hb (ShTup ss) - (if hb then 2 else 1)))| |intros x H; exact H].
+            - intros s Hin. pose proof (mu_tup hb ss s Hin). lia.
             - exact R.
-            - pose proof (mu_pos (ShTup ss)). unfold mu in *. cbn [tsize sdepth] in *. lia. }
+            - revert Hn. unfold mu. cbn [tsize sdepth andb]. destruct hb; lia. }
           intros; exact I.
         + (* Property<T> read from a sequence: operator, value *)
           destruct (st <? en) eqn:E; [|exact I]. apply Nat.ltb_lt in E.
@@ -699,18 +713,18 @@ Section Tape.
           eapply gd2_bind.
           { eapply gd2_mono; [apply (IA sh (KVal n1) (en - n1))| |intros x H; exact H].
             - exists en. split; [exact E1|]. split; [exact R2|lia].
-            - unfold mu; cbn [tsize sdepth]; lia. }
+            - revert Hn. unfold mu; cbn [tsize sdepth andb]; destruct hb; lia. }
           intros; exact I.
-        + eapply gd2_bind; [eapply gd2_mono; [apply (IB ShAny st en R)|unfold mu; cbn [tsize sdepth]; lia|intros x H; exact H]|].
+        + eapply gd2_bind; [eapply gd2_mono; [apply (IB ShAny st en R)|revert Hn; unfold mu; cbn [tsize sdepth andb]; destruct hb; lia|intros x H; exact H]|].
           intros; exact I.
       - destruct Hv as [Hm Hn]. destruct (wmode_of sh) as [m|] eqn:Em; [|exact I].
         eapply gd2_bind.
-        { eapply gd2_mono; [apply (ID m (acc0 m) st en (mu sh) (acc0_ok m) Hm)| |intros x H; exact H].
+        { eapply gd2_mono; [apply (ID m (acc0 m) st en (mu hb sh) (acc0_ok m) Hm)| |intros x H; exact H].
           - intros c Hc. eapply mu_child; eauto.
           - lia. }
         intros a Ha. eapply strict_gd2, strict_mono; [apply finish_strict; exact Ha|]. intros; exact I.
       - destruct sh; try exact I. unfold omap. cbn [tvb] in Hv.
-        eapply gd2_bind; [eapply gd2_mono; [apply (IA sh (KVal vi) n Hv)|unfold mu; cbn [tsize sdepth]; lia|intros x H; exact H]|].
+        eapply gd2_bind; [eapply gd2_mono; [apply (IA sh (KVal vi) n Hv)|unfold mu; cbn [tsize sdepth]; destruct hb; lia|intros x H; exact H]|].
         intros; exact I.
       - destruct sh; try exact I. destruct Hv as [(n' & Hk') Hrest].
         eapply gd2_bind; [apply strict_gd2, (tape_visit_ok THStr (KVal vi) n' Hk')|]. intros vv Hvv.
@@ -747,3 +761,242 @@ Section Tape.
     Lemma step_D f : PA f -> PD f -> PD (S f).
     Proof.
       intros IA ID m a ti en M Ha Hm HM. rewrite twalk_S.
+      assert (Hent : forall kb knum x nx, kbound x nx ->
+                (2 * msz ti en + M + 4 <= S f -> 2 * nx + M + 1 <= f) ->
+                gd2 true (2 * msz ti en + M + 4 <= S f) (fun r : acc * unit => acc_ok m (fst r) /\ True)
+                    (entry (rec_f f) rec_op_f m a kb knum x tt)).
+      { intros kb knum x nx Hx Hf.
+        apply (entry_ok2 (rec_f f) rec_op_f _ (fun _ => True) m a kb knum x tt Ha).
+        - intros c Hc. unfold rec_f, omap.
+          eapply gd2_bind; [eapply gd2_mono; [apply (IA c x nx Hx)|intros FFh; specialize (HM c Hc); lia|intros y H; exact H]|].
+          intros; exact I.
+        - unfold rec_op_f. eapply gd2_bind; [apply strict_gd2, (tape_visit_ok THStr x nx Hx)|].
+          intros vo _. destruct vo; try exact I. unfold omap.
+          eapply gd2_bind; [apply strict_gd2, visit_operator_strict|]. intros; exact I. }
+      destruct (fields_next_cases ti en Hm) as [[E Hc]|(s & op & vi & n & E & L1 & L2 & L3 & Rv & Hm')];
+        rewrite E; cbn [obind].
+      - assert (Hrem : forall rs re, rng rs re -> re - rs <= msz ti en ->
+                  gd2 true (2 * msz ti en + M + 4 <= S f) (acc_ok m)
+                    (do n <- values_len t (S (length t)) rs re;
+                     match n with
+                     | O => Ok a
+                     | S _ => do r <- entry (rec_f f) rec_op_f m a STR_REMAINDER false (KArr rs re) tt; Ok (fst r)
+                     end)).
+        { intros rs re R Hle. eapply gd2_bind; [apply strict_gd2, values_len_strict; exact R|].
+          intros [|n'] _; [exact Ha|].
+          eapply gd2_bind; [apply (Hent STR_REMAINDER false (KArr rs re) (re - rs + 1)); [split; [exact R|lia]|lia]|].
+          intros r [H _]. exact H. }
+        destruct Hc as [->|(L & Er & R)].
+        + destruct Hm as (_ & _ & R). destruct (remainder t en en) as [rs re] eqn:Er. cbn [fst snd] in R.
+          apply Hrem; [exact R|]. unfold msz, remspan. rewrite Er. cbn [fst snd]. lia.
+        + rewrite Er. apply Hrem; [exact R|]. unfold msz. lia.
+      - destruct (key_info decode (KScalar s)) as [kb knum].
+        eapply gd2_bind.
+        { apply (Hent kb knum (KOpVal (match op with Some o => o | None => Equal end) vi) (n - vi)).
+          - exists n. split; [exact L2|]. split; [exact Rv|lia].
+          - unfold msz. lia. }
+        intros r [Hr _].
+        eapply gd2_mono; [apply (ID m (fst r) n en M Hr Hm' HM)|unfold msz; lia|intros y H; exact H].
+    Qed.
+
+    Theorem tape_all : forall f, PA f /\ PB f /\ PC f /\ PD f.
+    Proof.
+      induction f as [|f (IA & IB & IC & ID)].
+      - repeat split.
+        + intros sh k n _. cbn. lia.
+        + intros s ti en _. cbn. lia.
+        + intros ss ti en SZ _ _. cbn. lia.
+        + intros m a ti en M _ _ _. cbn. lia.
+      - repeat split; [apply step_A|apply step_B|apply step_C|apply step_D]; assumption.
+    Qed.
+
+    (* the root MapAccess over st..en: for EVERY fuel *)
+    Theorem de_root_ok fuel sh st en : map_ok st en ->
+      gd2 true (2 * msz st en + mu hb sh + 4 <= fuel) (fun _ => True)
+          (de_root decode parse_f64 fo t fuel sh st en).
+    Proof.
+      intros Hm. unfold de_root. destruct (wmode_of sh) as [m|] eqn:Em.
+      2:{ destruct (thint_of sh); exact I. }
+      assert (Hgo : gd2 true (2 * msz st en + mu hb sh + 4 <= fuel) (fun _ : dval => True)
+                      (do a <- twalk fuel m (acc0 m) st en; finish m a)).
+      { destruct (tape_all fuel) as (_ & _ & _ & ID).
+        eapply gd2_bind.
+        { eapply gd2_mono; [apply (ID m (acc0 m) st en (mu hb sh) (acc0_ok m) Hm)| |intros x H; exact H].
+          - intros c Hc. eapply mu_child; eauto.
+          - lia. }
+        intros a Ha. eapply strict_gd2, strict_mono; [apply finish_strict; exact Ha|]. intros; exact I. }
+      destruct (thint_of sh); try exact I; exact Hgo.
+    Qed.
+  End De.
+End Tape.
+
+(* ================================================================ the entry points *)
+Definition tok_is_header (k : ttok) : bool := match k with THeader _ => true | _ => false end.
+Definition has_header (t : ttape) : bool := existsb tok_is_header t.
+
+Lemma has_header_hdr t vi : is_hdr t vi = true -> has_header t = true.
+Proof.
+  unfold is_hdr, has_header. destruct (nth_error t vi) as [k|] eqn:K; [|discriminate].
+  intros H. apply existsb_exists. exists k. split; [eapply nth_error_In; eauto|]. destruct k; try discriminate; reflexivity.
+Qed.
+
+(* extra fuel a shape needs beyond shape_size: the Seq / Tuple nesting depth, and only on tapes with Header tokens *)
+Definition seq_extra (t : ttape) (sh : shape) : nat := if has_header t then sdepth sh else 0.
+
+(* the root MapAccess over any object body st..en of a well-formed tape, EVERY fuel *)
+Theorem de_root_range_ok decode parse_f64 fo sh t fuel st en :
+  (forall raw, wfl (cow_bytes (decode raw))) -> TapeWf.tape_wf t -> map_ok t st en ->
+  gd2 true (2 * msz t st en + tsize sh + seq_extra t sh + 4 <= fuel) (fun _ => True)
+      (TextDeTape.de_root decode parse_f64 fo t fuel sh st en).
+Proof.
+  intros Hdec WF Hm.
+  eapply gd2_mono; [apply (de_root_ok t WF decode parse_f64 fo Hdec (has_header t) (has_header_hdr t) fuel sh st en Hm)| |intros; exact I].
+  unfold mu, seq_extra. lia.
+Qed.
+
+(* the root deserializer on a whole well-formed tape, EVERY fuel *)
+Theorem de_root_text_ok decode parse_f64 fo sh t fuel :
+  (forall raw, wfl (cow_bytes (decode raw))) -> TapeWf.tape_wf t ->
+  gd2 true (2 * length t + tsize sh + seq_extra t sh + 4 <= fuel) (fun _ => True)
+      (TextDeTape.de_root decode parse_f64 fo t fuel sh 0 (length t)).
+Proof.
+  intros Hdec WF. destruct (map_ok_root t WF) as [Hm Hsz].
+  eapply gd2_mono; [apply (de_root_range_ok decode parse_f64 fo sh t fuel 0 (length t) Hdec WF Hm)| |intros; exact I].
+  rewrite Hsz. lia.
+Qed.
+
+Lemma seq_extra_le t sh : seq_extra t sh <= sdepth sh /\ sdepth sh <= tsize sh.
+Proof. unfold seq_extra. pose proof (sdepth_le_tsize sh). destruct (has_header t); lia. Qed.
+
+(* a shape-size-only form of the bound: twice the shape size always suffices *)
+Corollary de_root_text_ok_2size decode parse_f64 fo sh t fuel :
+  (forall raw, wfl (cow_bytes (decode raw))) -> TapeWf.tape_wf t ->
+  gd2 true (2 * length t + 2 * tsize sh + 4 <= fuel) (fun _ => True)
+      (TextDeTape.de_root decode parse_f64 fo t fuel sh 0 (length t)).
+Proof.
+  intros Hdec WF. eapply gd2_mono; [apply (de_root_text_ok decode parse_f64 fo sh t fuel Hdec WF)| |intros; exact I].
+  pose proof (seq_extra_le t sh). lia.
+Qed.
+
+(* (1) deser_tape with its own fuel never panics / leaves memory bounds -- unconditional *)
+Theorem deser_tape_text_nopanic decode parse_f64 fo sh t :
+  (forall raw, wfl (cow_bytes (decode raw))) -> TapeWf.tape_wf t ->
+  gd2 true False (fun _ => True) (TextDeTape.deser_tape decode parse_f64 fo sh t).
+Proof.
+  intros Hdec WF. unfold deser_tape.
+  eapply gd2_mono; [apply (de_root_text_ok decode parse_f64 fo sh t _ Hdec WF)|intros []|intros; exact I].
+Qed.
+
+(* (2) ... and does not run out of its own fuel (tape_fuel = 2 * length t + shape_size sh + 8) when
+   seq_extra t sh <= 4, i.e. when the tape has no Header token, or ShSeq / ShTup are nested at most 4 deep.
+   GAP to the intended statement (gd2 true True for EVERY tape and shape): the hypothesis seq_extra t sh <= 4.
+   It cannot be dropped: see [tape_fuel_insufficient]. *)
+Theorem deser_tape_text_ok_partial decode parse_f64 fo sh t :
+  (forall raw, wfl (cow_bytes (decode raw))) -> TapeWf.tape_wf t -> seq_extra t sh <= 4 ->
+  gd2 true True (fun _ => True) (TextDeTape.deser_tape decode parse_f64 fo sh t).
+Proof.
+  intros Hdec WF Hd. unfold deser_tape, tape_fuel.
+  eapply gd2_mono; [apply (de_root_text_ok decode parse_f64 fo sh t _ Hdec WF)| |intros; exact I].
+  intros _. lia.
+Qed.
+
+Corollary deser_tape_text_ok_noheader decode parse_f64 fo sh t :
+  (forall raw, wfl (cow_bytes (decode raw))) -> TapeWf.tape_wf t -> has_header t = false ->
+  gd2 true True (fun _ => True) (TextDeTape.deser_tape decode parse_f64 fo sh t).
+Proof.
+  intros Hdec WF Hh. apply deser_tape_text_ok_partial; auto. unfold seq_extra. rewrite Hh. lia.
+Qed.
+
+Corollary deser_tape_text_ok_depth4 decode parse_f64 fo sh t :
+  (forall raw, wfl (cow_bytes (decode raw))) -> TapeWf.tape_wf t -> sdepth sh <= 4 ->
+  gd2 true True (fun _ => True) (TextDeTape.deser_tape decode parse_f64 fo sh t).
+Proof.
+  intros Hdec WF Hd. apply deser_tape_text_ok_partial; auto. pose proof (seq_extra_le t sh). lia.
+Qed.
+
+(* for every input of the text parser: never Panic / OOB; OutOfFuel only if seq_extra t sh > 4 *)
+Theorem deser_tape_text_parse decode parse_f64 fo sh input :
+  (forall raw, wfl (cow_bytes (decode raw))) ->
+  match TextTape.parse input with
+  | Ok (t, _) =>
+      gd2 true (seq_extra t sh <= 4) (fun _ => True) (TextDeTape.deser_tape decode parse_f64 fo sh t)
+  | _ => True
+  end.
+Proof.
+  intros Hdec. destruct (TextTape.parse input) as [[t bom]| | | |] eqn:E; try exact I.
+  pose proof (JV.proofs.TextTapeGrammarProofs.parse_tape_wf input t bom E) as WF.
+  unfold deser_tape, tape_fuel.
+  eapply gd2_mono; [apply (de_root_text_ok decode parse_f64 fo sh t _ Hdec WF)| |intros; exact I].
+  intros Hd. lia.
+Qed.
+
+(* ---------- the counterexample to the model's own fuel ---------- *)
+Fixpoint seq_n (k : nat) (s : shape) : shape := match k with O => s | S k' => ShSeq (seq_n k' s) end.
+Definition cex_input : bytes := [97; 61; 114; 103; 98; 123; 123; 125; 125]%N.      (* a=rgb{{}} *)
+Definition cex_tape : ttape := [TUnquoted [97%N]; THeader [114; 103; 98]%N; TArray 3 false; TEnd 2].
+Definition cex_shape : shape := ShMap (seq_n 16 ShIgn).
+Definition cex_dec (raw : bytes) : cow := Borrowed raw.
+Definition cex_pf (raw : bytes) : outcome N := Err 1%N.
+Definition cex_fo : fops := mkfops (fun x => x) (fun x => x) (fun _ => 0%N) (fun _ => 0%N).
+
+Example tape_fuel_insufficient :
+  TextTape.parse cex_input = Ok (cex_tape, false) /\
+  TextDeTape.deser_tape cex_dec cex_pf cex_fo cex_shape cex_tape = OutOfFuel /\
+  is_ok (TextDeTape.de_root cex_dec cex_pf cex_fo cex_tape 200 cex_shape 0 (length cex_tape)) = true /\
+  seq_extra cex_tape cex_shape = 16.
+Proof. repeat split; vm_compute; reflexivity. Qed.
+
+(* ================================================================ ObjectReader::deserialize (harness path objreader@k) *)
+Lemma nth_field_total t : TapeWf.tape_wf t -> forall fuel k ti en, map_ok t ti en -> en - ti < fuel ->
+  exists o, nth_field t fuel k ti en = Ok o /\
+    match o with Some vi => exists n, vi < n /\ rng t vi n | None => True end.
+Proof.
+  intros WF. induction fuel as [|fuel IH]; intros k ti en Hm Hf; [lia|].
+  cbn [nth_field].
+  destruct (fields_next_cases t WF ti en Hm) as [[E _]|(s & op & vi & n & E & L1 & L2 & L3 & Rv & Hm')];
+    rewrite E; cbn [obind].
+  - exists None. split; [reflexivity|exact I].
+  - destruct k as [|k'].
+    + exists (Some vi). split; [reflexivity|]. exists n. split; assumption.
+    + apply IH; [exact Hm'|lia].
+Qed.
+
+(* Panic 9101 is the harness's own `expect` on a missing field k: it is returned exactly when the root
+   object has no k-th field; otherwise the reader path behaves like the root path *)
+Theorem deser_objreader_text_ok decode parse_f64 fo sh t k :
+  (forall raw, wfl (cow_bytes (decode raw))) -> TapeWf.tape_wf t ->
+  match k with
+  | None => gd2 true (seq_extra t sh <= 4) (fun _ => True) (TextDeTape.deser_objreader decode parse_f64 fo sh t None)
+  | Some k' =>
+      exists o, nth_field t (S (length t)) k' 0 (length t) = Ok o /\
+        match o with
+        | Some _ => gd2 true (seq_extra t sh <= 4) (fun _ => True)
+                        (TextDeTape.deser_objreader decode parse_f64 fo sh t (Some k'))
+        | None => TextDeTape.deser_objreader decode parse_f64 fo sh t (Some k') = Panic 9101%N
+        end
+  end.
+Proof.
+  intros Hdec WF. destruct k as [k'|]; cbn [deser_objreader].
+  2:{ unfold deser_tape, tape_fuel.
+      eapply gd2_mono; [apply (de_root_text_ok decode parse_f64 fo sh t _ Hdec WF)|intros Hd; lia|intros; exact I]. }
+  destruct (map_ok_root t WF) as [Hm0 _].
+  destruct (nth_field_total t WF (S (length t)) k' 0 (length t) Hm0 ltac:(lia)) as (o & E & Ho).
+  exists o. split; [exact E|]. rewrite E. cbn [obind]. destruct o as [vi|]; [|reflexivity].
+  destruct Ho as (n & L & [D B]).
+  destruct (nth_error t vi) as [tk|] eqn:K; [|apply nth_error_None in K; lia].
+  rewrite (tget_some t vi tk K). cbn [obind].
+  assert (Hgo : forall st en, map_ok t st en -> msz t st en <= length t ->
+            gd2 true (seq_extra t sh <= 4) (fun _ : dval => True)
+                (de_root decode parse_f64 fo t (tape_fuel sh t) sh st en)).
+  { intros st en Hm Hsz.
+    eapply gd2_mono; [apply (de_root_range_ok decode parse_f64 fo sh t _ st en Hdec WF Hm)| |intros; exact I].
+    intros Hd. unfold tape_fuel. lia. }
+  destruct tk; cbn [read_object]; try exact I.
+  - destruct (map_ok_arr t WF _ _ _ K) as (M1 & M2 & M3 & M4). apply Hgo; [exact M1|lia].
+  - destruct (map_ok_obj t WF _ _ _ K) as (M1 & M2 & M3 & M4). apply Hgo; [exact M1|lia].
+Qed.
+
+Print Assumptions deser_tape_text_parse.
+Print Assumptions deser_tape_text_ok_partial.
+Print Assumptions deser_objreader_text_ok.
+Print Assumptions tape_fuel_insufficient.
